@@ -1073,11 +1073,22 @@ func init() {
 	register(&PropSpec{ID: "C16", Level: "exploration",
 		Rule: "staking histories (delegations, unbonds incl. the first block after genesis and from the waitlist, moves, locks, stake locks, candidate removals, punishments) on both chain ids; reference: accepted unbond/move/lock transactions determine exactly which frozen-fund entries (height = block + unbond / move period or due block, owner, coin, source, target) must appear; entries disappear only at their due block, releases are credited to the balance, moves only to an existing target candidate; distinct non-trivial case = distinct explanation class (unbond, move, lock, protocol unbond, slash, release, move delivered)",
 		Make: func(r *rand.Rand, seed int64, chain int, tier string) *Scenario {
-			return baseScenario("C16", r, seed, chain, tier, StakeProfile(), func(g *GenCfg, n *NodeCfg) {
+			many := r.Intn(10) == 0
+			sc := baseScenario("C16", r, seed, chain, tier, StakeProfile(), func(g *GenCfg, n *NodeCfg) {
 				g.Frozen = 4 + r.Intn(8)
 				g.NCand = 2 + r.Intn(4)
 				g.LockedAcct = r.Intn(3)
+				if many {
+					// more than 100 candidates: the recalculation removes the poorest and unbonds their stakes
+					g.NVal = 3 + r.Intn(3)
+					g.NCand = 99 + r.Intn(6)
+					n.Period = 6
+				}
 			})
+			if many && len(sc.Blocks) > 30 {
+				sc.Blocks = sc.Blocks[:30]
+			}
+			return sc
 		},
 		Monitors: func(sc *Scenario) []Monitor { return []Monitor{&MonC16{}, MonHotCold{}} },
 		Distinct: func(w *World) []string { return classesOf(w) },
